@@ -96,9 +96,14 @@ def validate(chk: Check, label, traces, infos, shards):
     seen = set()
     excluded = 0
     classes, by_bytes = {}, {}
+    results = sorted(results, key=lambda r: r.out)       # shards finish in any order; report deterministically
+    recs = []
     for r in results:
         chk.add_tlc(r, "PassThrough_Trace " + label)
-        for rec in r.printed():
+        recs += [x for x in r.printed() if isinstance(x, dict)]
+    recs.sort(key=lambda x: (x.get("tid", -1), x.get("fail", ""), common.skey(x)))
+    for _ in (0,):
+        for rec in recs:
             if isinstance(rec, dict) and "cls" in rec:
                 c = rec["cls"]
                 k = "%s/%s%s%s" % (c["status"], "canonical" if c["canon"] else "NON-canonical",
